@@ -174,6 +174,9 @@ func (x *Exec) oblige(st *State, kind string, pos token.Pos, goal string, tag st
 	}
 	if props == nil {
 		props = x.props
+		if r := x.root(); r.fc != nil && len(r.fc.LockProps) > 0 && (kind == "unlock" || kind == "call-requires") {
+			props = append(append([]string{}, props...), r.fc.LockProps...)
+		}
 	}
 	o := &Obligation{Name: name, Kind: kind, Func: x.key, Props: props, Tag: tag, Pos: where, Text: txt,
 		guard: st.guard, goal: goal, nAssert: len(x.c.assert), nDecl: len(x.c.decls), ctx: x.c, block: x.c.curBlock}
@@ -1762,7 +1765,32 @@ func (x *Exec) fieldAddr(st *State, fa *ssa.FieldAddr) Val {
 		return Val{T: fa.Type(), P: &np}
 	}
 	x.nilCheck(st, base.S, fa.Pos())
+	x.lockCheck(st, stt, fa)
 	return Val{T: fa.Type(), P: &Ptr{Kind: pField, Ref: base.S, SType: stT, Field: fa.Field, BaseT: ft}}
+}
+
+// lockCheck: lock discipline (directive "lockdiscipline Cxx files").  The
+// fields of a struct that carries a sync.Mutex are only touched while the
+// mutex is held.
+func (x *Exec) lockCheck(st *State, stt *types.Struct, fa *ssa.FieldAddr) {
+	r := x.root()
+	if r.fc == nil || len(r.fc.LockProps) == 0 || x.ghost {
+		return
+	}
+	isMutex := func(t types.Type) bool {
+		n, ok := t.(*types.Named)
+		return ok && n.Obj().Pkg() != nil && n.Obj().Pkg().Path() == "sync" && (n.Obj().Name() == "Mutex" || n.Obj().Name() == "RWMutex")
+	}
+	has := false
+	for i := 0; i < stt.NumFields(); i++ {
+		if isMutex(stt.Field(i).Type()) {
+			has = true
+		}
+	}
+	if !has || isMutex(stt.Field(fa.Field).Type()) {
+		return
+	}
+	x.oblige(st, "locked", fa.Pos(), x.c.region(st, "$held"), "", r.fc.LockProps)
 }
 
 func (x *Exec) boundsCheck(st *State, idx string, ln string, pos token.Pos) {
